@@ -281,12 +281,34 @@ def run_both(prop, cases, impl_argv, model_argv, tag='main', timeout=600, superv
     return res['impl'], res['model'], info
 
 
+def _retry_one(argv, index, timeout):
+    import select
+    p = subprocess.Popen(argv + ['--from', str(index)], stdout=subprocess.PIPE, stderr=subprocess.DEVNULL, env=ENV, preexec_fn=_limits)
+    buf = b''
+    end = time.time() + timeout
+    line = None
+    while time.time() < end:
+        r, _, _ = select.select([p.stdout], [], [], max(0.0, end - time.time()))
+        if not r:
+            break
+        chunk = os.read(p.stdout.fileno(), 1 << 16)
+        if not chunk:
+            break
+        buf += chunk
+        if b'\n' in buf:
+            line = buf.split(b'\n', 1)[0].decode('utf-8', 'replace').strip() or None
+            break
+    p.kill(); p.wait()
+    return line
+
+
 def run_supervised(argv, ncases, per_case_timeout):
     """Runs a harness that prints one flushed line per case; a case that makes no progress for
     per_case_timeout seconds (or kills the process) is recorded as '(DIVERGED)' / '(CRASHED rc)'
     and the run resumes after it with --from. Returns the list of lines."""
     import select
     lines = []
+    stalls = 0
     while len(lines) < ncases:
         p = subprocess.Popen(argv + ['--from', str(len(lines))], stdout=subprocess.PIPE, stderr=subprocess.DEVNULL,
                              env=ENV, preexec_fn=_limits)
@@ -307,7 +329,14 @@ def run_supervised(argv, ncases, per_case_timeout):
                     lines.append(ln.decode('utf-8', 'replace'))
         if stalled:
             p.kill(); p.wait()
-            lines.append('(DIVERGED)')
+            # confirm before recording a divergence: the same case once more, alone, with five times the limit (a loaded
+            # machine can stall a process for seconds; a genuine non-termination stalls for ever)
+            # (only the first two stalls of a shard are confirmed: after two genuine divergences the rest are taken as such)
+            confirmed = None
+            if stalls < 2:
+                confirmed = _retry_one(argv, len(lines), 5 * per_case_timeout)
+            stalls += 1
+            lines.append(confirmed or '(DIVERGED)')
         else:
             p.wait()
             if len(lines) < ncases:
